@@ -100,6 +100,9 @@ func multisigAccounts(privs []*keys.PrivateKey, m int) []*wallet.Account {
 
 func newWorld(n int, live bool) *World {
 	w := &World{n: n, t: &fakeT{}, accounts: map[util.Uint160]neotest.Signer{}, hashes: map[string]util.Uint160{}, srcDir: map[string]string{}, live: live, trackFx: live}
+	for pn, dir := range probeContracts { // probe contracts live in the engine module
+		w.srcDir[pn] = filepath.Join(verifRoot, "engine", "probe", dir)
+	}
 	w.privs = make([]*keys.PrivateKey, n)
 	for i := range w.privs {
 		w.privs[i] = detAccount(fmt.Sprintf("committee%d", i)).PrivateKey()
